@@ -273,7 +273,9 @@ impl SauceData {
             data.len() - SAUCE_LEN
         };
 
-        let offset = len - 1; // -1 is from the EOF char
+        // the EOF char in front of the record (or comment block) belongs to the SAUCE trailer, but only if it is there:
+        // a file may consist of nothing but the record, and a file without EOF char must not lose its last content byte
+        let offset = if len > 0 && data[len - 1] == 0x1A { len - 1 } else { len };
 
         Ok(Some(SauceData {
             title,
